@@ -67,6 +67,9 @@ type Hooks struct {
 	// FailOp is consulted after Op for operations that can report an error (also in read transactions):
 	// a non-nil error is returned by the operation instead of executing it
 	FailOp func(tx *ProxyTx, kind string, n int64) error
+	// Put is called before a Put is executed, with the bucket and the key (it may block: a place to hold
+	// a write batch at a chosen write)
+	Put func(tx *ProxyTx, bucket string, key []byte)
 }
 
 // Proxy wraps a DiskStore.
@@ -343,6 +346,9 @@ func (b *ProxyBucket) Put(k, v []byte) error {
 		return fmt.Errorf("verif: Put on bucket %s after its transaction ended", b.name)
 	}
 	defer b.tx.leave()
+	if h := b.tx.p.hooks.Load(); h != nil && h.Put != nil {
+		h.Put(b.tx, b.name, k)
+	}
 	if err := b.tx.step("Put", b.name, true); err != nil {
 		return err
 	}
